@@ -1,9 +1,11 @@
 /-
   C04, requester half (cooked REQ socket and contexts).  Property theorems about the model
   `Nng.Req.step` (Model/Req.lean, tied to req.c by the correspondence check); lemmas are in
-  Proofs/ReqInv.lean and Proofs/ReqSteps.lean.  The REP half is in its own module.
+  Proofs/ReqInv.lean and Proofs/ReqSteps.lean; "the C04 judge accepts every trace of the model" is proved in
+  Proofs/ReqJudge*.lean (simulation between model state and judge state).  The REP half is in its own module.
 -/
 import NngModel.Proofs.ReqSteps
+import NngModel.Proofs.ReqJudgeMain
 import NngModel.Spec.Req
 namespace Nng.C04Req
 open Nng Nng.Proto Nng.Req
@@ -105,20 +107,57 @@ theorem judge04_rejects_abort_with_zero :
   revert this
   decide
 
-/-- NOT proved: under `JudgeHyps` the C04 judge accepts every trace of the model
-    (`judge04 (trace evs) = none`); it needs a simulation between the judge's bookkeeping and the model
-    state (the id-map invariant `inv_reachable` and the list invariant `inv2_reachable` are its
-    ingredients).  The judge is run on the implementation's traces and, through the correspondence, on
-    the model's. -/
+/-- `sendBodies` here and in the simulation proof are the same function -/
+theorem sendBodies_eq (evs : List Ev) : sendBodies evs = Nng.ReqJ.sendBodies evs := rfl
+
+/-- further guarantees of the check's generator (vlib/props/c04req.py) that the judge relies on:
+    * at most `relBase` = 65536 requests are submitted in one case (the model names requests on the wire by
+      `idMin + index` and reserves the values from `idMin + relBase` up for relative names, so it stands for the
+      implementation only up to that many requests; the generator submits at most 60);
+    * a reply that uses a relative name ("the request allocated d ids after the k-th request seen on the wire",
+      Model/Req.lean `resolveWire`) does so only for a request that has no wire name of its own
+      (`Ids.concretise` in c04req.py: "if the id at that distance was seen after all, its own first-occurrence
+      name is used"); decidable, evaluated along the run of the model -/
+def GenHyps (evs : List Ev) : Prop :=
+  (sendBodies evs).length ≤ relBase ∧ Nng.ReqJ.RepliesNamed {} evs
+
+/-- **The C04 judge accepts every trace of the REQ model** (all event lists satisfying the generator's guarantees). -/
+theorem judge_accepts_model (evs : List Ev) (h : JudgeHyps evs) (g : GenHyps evs) :
+    Nng.ReqSpec.judge04 (evs.zip (run {} evs).2) = none :=
+  Nng.ReqJ.judge04_accepts evs h.1 h.2 g.1 g.2
+
+/-- the statement with `JudgeHyps` alone (the former `judge_accepts_model_statement`) is FALSE: a reply that names
+    a request *with* a wire name by a relative name is delivered by the model (and by req.c, which only sees the
+    real id) but the judge, which compares the four id bytes, does not expect it -/
 def judge_accepts_model_statement : Prop :=
   ∀ evs : List Ev, JudgeHyps evs → Nng.ReqSpec.judge04 (evs.zip (run {} evs).2) = none
+
+theorem judge_needs_reply_names : ¬ judge_accepts_model_statement := by
+  intro h
+  have := h [.openSock "req" false, .pipeAdd 0x31, .pipeAdd 0x31, .send none 0 ⟨[], [1]⟩ .inf, .ctxOpen 0,
+             .send (some 0) 1 ⟨[], [2]⟩ .inf, .recv (some 0) 2 .inf,
+             .recvDone 0 (.ok (beEncode 4 (idMin + relBase * (relOff + 1)) ++ [9]))]
+    ⟨fun a h => by simp at h, by decide⟩
+  revert this
+  decide
+
+/-- distinct request bodies are needed: the judge identifies a request on the wire by its body -/
+theorem judge_needs_distinct_bodies :
+    ¬ ∀ evs : List Ev, (∀ a, Ev.abort a 0 ∉ evs) → GenHyps evs → Nng.ReqSpec.judge04 (evs.zip (run {} evs).2) = none := by
+  intro h
+  have := h [.openSock "req" false, .pipeAdd 0x31, .pipeAdd 0x31, .ctxOpen 0, .send none 0 ⟨[], [1]⟩ .inf,
+             .send (some 0) 1 ⟨[], [1]⟩ .inf, .recv (some 0) 2 .inf, .recvDone 1 (.ok (beEncode 4 (idMin + 1) ++ [9]))]
+    (fun a h => by simp at h) ⟨by decide, by decide⟩
+  revert this
+  decide
 
 /-- the hypotheses are satisfiable by a non-trivial history, which the judge accepts -/
 example :
     let evs : List Ev := [.openSock "req" false, .pipeAdd 0x31, .send none 0 ⟨[], [1, 2]⟩ .inf, .recv none 1 .inf,
                           .recvDone 0 (.ok (beEncode 4 idMin ++ [7])), .recv none 2 .nb, .poll]
-    JudgeHyps evs ∧ Nng.ReqSpec.judge04 (evs.zip (run {} evs).2) = none := by
-  refine ⟨⟨fun a h => by simp at h, by decide⟩, by decide⟩
+    JudgeHyps evs ∧ GenHyps evs ∧ Nng.ReqSpec.judge04 (evs.zip (run {} evs).2) = none := by
+  refine ⟨⟨fun a h => by simp at h, by decide⟩, ⟨by decide, by decide⟩, ?_⟩
+  exact judge_accepts_model _ ⟨fun a h => by simp at h, by decide⟩ ⟨by decide, by decide⟩
 
 /-- the hypotheses of the theorems are satisfiable: a request on the wire, its reply is delivered to the
     waiting receive -/
